@@ -79,9 +79,25 @@ def r1(run):
     run.floor("distinct registries (module, value type)", len(maps), 4)
 
 
+def started_entry(run, mod):
+    """The function of module `mod` the binary's serve() actually starts: `mod::serve`, or another entry point of the module that
+    runs the same loop (`serve_with_ready(store, engine)` = the serve loop plus a readiness marker).  Rules about the loop look at
+    what is started."""
+    facts = run.facts
+    for b in facts.bin.body_list:
+        if b.def_.startswith("xsbin::serve") and (b.is_coroutine or b.kind == "Closure"):
+            for c in b.calls():
+                if c.bb in b.live_blocks() and c.fn.startswith(mod + "::") and c.fn.count("::") == mod.count("::") + 1:
+                    eb = [x for x in facts.bodies_under(c.fn) if x.is_coroutine and x.def_ == c.fn + "::{closure#0}"]
+                    if eb and q.live_calls(eb[0], C.READ):
+                        return c.fn
+    return mod + "::serve"
+
+
 def serve_body(run, mod):
-    for b in run.facts.bodies_under(mod + "::serve"):
-        if b.is_coroutine and b.def_ == mod + "::serve::{closure#0}":
+    entry = started_entry(run, mod)
+    for b in run.facts.bodies_under(entry):
+        if b.is_coroutine and b.def_ == entry + "::{closure#0}":
             run.touch(b)
             return b
     return None
@@ -301,7 +317,8 @@ def r4(run):
     run.touch(sb)
     news = q.live_calls(sb, C.NEW)
     run.exact("Store::new calls in the binary's serve", len(news), 1, sb.sp)
-    wanted = {"xs::generators::serve::serve": False, "xs::handlers::serve::serve": False, "xs::commands::serve::serve": False, "xs::api::serve": False}
+    wanted = {started_entry(run, "xs::generators::serve"): False, started_entry(run, "xs::handlers::serve"): False,
+              started_entry(run, "xs::commands::serve"): False, "xs::api::serve": False}
     for b in [sb] + facts.closures_under(sb.def_):
         for c in b.calls():
             if c.fn in wanted and c.bb in b.live_blocks():
